@@ -325,6 +325,7 @@ func Run(c *engine.Ctx) {
 			}
 		}
 	}
+	stringValues(c)
 	graphShapes(c)
 	sizeClasses(c)
 	histories(c)
@@ -849,6 +850,81 @@ func sortStrings(s []string) {
 		for j := i + 1; j < len(s); j++ {
 			if s[j] < s[i] {
 				s[i], s[j] = s[j], s[i]
+			}
+		}
+	}
+}
+
+// stringValues: every string-valued place of a fully populated document (metadata, tools, persons and their
+// contacts, document types, every node attribute, list elements, map values, edge ends, root elements) takes every
+// content of the hostile menu (gen.HostileStrings: what URL, date, number, e-mail, UUID, purl, CPE, path and template
+// parsers reject or return absent parts for) and every structural token of the library's own sources, in every
+// registered format: the serializer returns an error or an output, twice the same.
+func stringValues(c *engine.Ctx) {
+	c.Group("string-values")
+	mk := func() *sbom.Document {
+		d := sbom.NewDocument()
+		gen.Full(d.Metadata, "m", 1)
+		d.Metadata.Id, d.Metadata.Version = "urn:uuid:3e671687-395b-41f5-a30f-a58921a69b79", "1"
+		n := &sbom.Node{}
+		gen.Full(n, "n", 1)
+		n.Id = "a"
+		d.NodeList.Nodes = []*sbom.Node{n, {Id: "b", Name: "nb"}}
+		d.NodeList.Edges = []*sbom.Edge{{From: "a", Type: sbom.Edge_contains, To: []string{"b"}}}
+		d.NodeList.RootElements = []string{"a"}
+		return d
+	}
+	slots := gen.StringSlots(mk(), 3)
+	menu := append([]string{}, gen.HostileStrings()...)
+	seen := map[string]bool{}
+	for _, s := range menu {
+		seen[s] = true
+	}
+	for _, tk := range gen.StructuralTokens() {
+		for _, s := range []string{tk, tk + "x", "x" + tk} {
+			if !seen[s] {
+				seen[s] = true
+				menu = append(menu, s)
+			}
+		}
+	}
+	fs := rw.AllFormats
+	c.Bound("string-values", fmt.Sprintf("%d string-valued places of a fully populated document x %d contents (hostile to general-purpose parsers, structural tokens of the sources) x %d formats, serialized twice", len(slots), len(menu), len(fs)))
+	for si := range slots {
+		for mi := range menu {
+			for _, f := range fs {
+				si, mi, f := si, mi, f
+				c.Case(func() any {
+					return map[string]any{"group": "string-values", "place": slots[si].Label, "string": menu[mi], "format": string(f)}
+				}, func(t *engine.T) *engine.Violation {
+					d := mk()
+					slots[si].Set(d.ProtoReflect(), menu[mi])
+					out1, err1 := rw.Write(d, f, 2)
+					out2, err2 := rw.Write(d, f, 2)
+					t.Transitions(2)
+					t.State(fmt.Sprintf("sv|%s|%d|%s", slots[si].Label, mi, f))
+					if err1 == nil && len(out1) == 0 {
+						return engine.Violate("neither", fam(f), "no error and no output")
+					}
+					if (err1 == nil) != (err2 == nil) {
+						return engine.Violate("nondeterministic", fam(f), "first call err=%v, second call err=%v", err1, err2)
+					}
+					if err1 != nil {
+						t.Outcome(fam(f) + ":error")
+						return nil
+					}
+					n1, e1 := rw.NormalizeJSON(out1)
+					n2, e2 := rw.NormalizeJSON(out2)
+					if e1 != nil || e2 != nil {
+						return engine.Violate("output-not-json", fam(f), "output is not JSON: %v %v", e1, e2)
+					}
+					t.Validated(1)
+					if n1 != n2 {
+						return engine.Violate("nondeterministic", fam(f), "two serializations of the same document differ")
+					}
+					t.Outcome(fam(f) + ":output")
+					return nil
+				})
 			}
 		}
 	}
